@@ -25,7 +25,7 @@ ID = "C04"
 LEVEL = "exploration"
 RULE = ("generated: variant in {XX without stored server key, IK with the right key, IK with a stale key}, edge routing info on/off, "
         "phone / push name / passive flag, configuration object in memory or a profile directory on disk (loaded and written by YowProfile), chunk sizes for every server byte string (incl. 1-byte chunks), 0-3 server stanzas coalesced "
-        "with the handshake reply, 0-4 stanzas in each direction afterwards, a schedule of up to 200 choices for the interleaving of "
+        "with the handshake reply, 0-4 stanzas in each direction afterwards (optionally with one attempt to send a stanza that is just too large for a frame in between), a schedule of up to 200 choices for the interleaving of "
         "handshake worker and network thread, a history prefix of 0-2 attempts cut off before / during (after the client hello) / "
         "after the handshake (closed by the peer, or closed on request of the layer above from inside the delivery of a stanza that shares "
         "its read with the beginning of a further frame) followed by a reconnect, and optionally a corrupted server reply. Non-trivial = a handshake message "
@@ -294,8 +294,18 @@ def _run(case, out, rig, server, cfg, variant, phone):
     n_down = case.get("after_client", 0)
     client_sent = []
 
+    refused = []
+
     def sender():
         for i in range(n_down):
+            if i == 1 and case.get("too_large"):
+                # between two stanzas the application tries one that cannot be framed (2^24 - 16 bytes of plaintext is the
+                # smallest such size): it must be refused without disturbing the stanzas that follow
+                try:
+                    rig.stack.getLayer(3).toLower(bytearray(case["too_large"]))
+                    refused.append("accepted")
+                except Exception as e:
+                    refused.append(type(e).__name__)
             t = stanza(i, "c")
             client_sent.append(t)
             rig.top.toLower(ProtocolTreeNode(t[0], dict(t[1])))
@@ -307,10 +317,15 @@ def _run(case, out, rig, server, cfg, variant, phone):
         server.send_frame(R.encode(t))
     probs = rig.shuttle(chunker)
     if probs:
-        out.fail("order", "transport:server_cannot_decrypt", {"problem": str(probs[0])})
+        out.fail("order", "transport:server_cannot_decrypt", {"problem": str(probs[0]), "refused_send": refused})
         return out
     if not quiescent_ok("transport"):
         return out
+    if refused:
+        out.label("oversized_send_between_stanzas")
+        if refused != ["ValueError"]:
+            out.fail("order", "transport:oversized_stanza_not_refused", {"result": refused})
+            return out
     got_up = [(n.tag, dict(n.attributes), None) for n in rig.top.got[got_before:] if isinstance(n, ProtocolTreeNode)]
     if got_up != server_sent:
         out.fail("order", "transport:incoming_stanzas_differ", {"got": [g[1].get("id") for g in got_up],
@@ -373,6 +388,7 @@ def case_strategy():
             "prefix": draw(st.lists(st.sampled_from(["before", "during", "during_partial", "after", "after_inside_delivery"]), min_size=0, max_size=2)),
             "corrupt": draw(st.sampled_from([False, False, False, False, True])),
             "real_profile": draw(st.sampled_from([False, False, True])),
+            "too_large": draw(st.sampled_from([0, 0, 0, 0, 2 ** 24 - 16, 2 ** 24 - 15, 2 ** 24])),
             "choices": draw(st.lists(st.integers(0, 5), min_size=n, max_size=n)),
         }
         if n == 0 and draw(st.booleans()):
@@ -390,6 +406,9 @@ def _enum_basic():
                        "chunks": chunks, "coalesced": 2, "after_server": 2, "after_client": 2, "prefix": prefix, "corrupt": False, "choices": []}
         yield {"sub": "login", "variant": variant, "phone": "12025550100", "passive": False, "pushname": "Zoë", "edge": "0802100118",
                "chunks": [3], "coalesced": 0, "after_server": 1, "after_client": 1, "prefix": [], "corrupt": True, "choices": []}
+        for size in (2 ** 24 - 16, 2 ** 24):
+            yield {"sub": "login", "variant": variant, "phone": "4915112345", "passive": False, "pushname": None, "edge": None, "chunks": [],
+                   "coalesced": 0, "after_server": 1, "after_client": 3, "prefix": [], "corrupt": False, "choices": [], "too_large": size}
 
 
 def _enum_preemption_sweep(limit):
